@@ -199,6 +199,19 @@ func (p *Peer) SendTransactions(index types.ChainIndex, txnHashes []types.Hash25
 // not a valid checkpoint for the requested index.
 var errInvalidCheckpoint = errors.New("invalid checkpoint")
 
+// validateCheckpoint validates a checkpoint block against the state the peer
+// sent with it. The state is arbitrary peer-supplied data: consensus code is
+// written for states that were derived from validated blocks and may panic on
+// others (e.g. a zero difficulty), which must not take the node down.
+func validateCheckpoint(cs consensus.State, b types.Block) (err error) {
+	defer func() {
+		if r := recover(); r != nil {
+			err = fmt.Errorf("validation panicked: %v", r)
+		}
+	}()
+	return consensus.ValidateBlock(cs, b, consensus.V1BlockSupplement{})
+}
+
 // SendCheckpoint requests a checkpoint from the peer. The checkpoint is
 // validated.
 func (p *Peer) SendCheckpoint(index types.ChainIndex, n *consensus.Network, timeout time.Duration) (consensus.State, types.Block, error) {
@@ -212,7 +225,7 @@ func (p *Peer) SendCheckpoint(index types.ChainIndex, n *consensus.Network, time
 			err = fmt.Errorf("%w: wrong index", errInvalidCheckpoint)
 		} else if r.Block.V2.Commitment != r.State.Commitment(r.Block.MinerPayouts[0].Address, r.Block.Transactions, r.Block.V2Transactions()) {
 			err = fmt.Errorf("%w: wrong commitment", errInvalidCheckpoint)
-		} else if verr := consensus.ValidateBlock(r.State, r.Block, consensus.V1BlockSupplement{}); verr != nil {
+		} else if verr := validateCheckpoint(r.State, r.Block); verr != nil {
 			// neither the block ID nor the commitment covers the whole body
 			// (e.g. the miner payout value or the v2 height), and the state
 			// need not be the block's parent state: callers derive the state
